@@ -483,6 +483,35 @@ func (v *Verifier) applyContractS(st *State, con *Contract, cpkg *types.Package,
 		}
 		st.assume(g)
 	}
+	// postconditions of the interface contracts this function is proved to implement (impl obligations)
+	for _, impl := range con.Implements {
+		ic := v.lookupImplTarget(con, impl)
+		if ic == nil || ic.Kind != "iface" || fn == nil || len(args) == 0 {
+			continue
+		}
+		ienv := &Env{v: v, st: st, old: old, vars: map[string]Val{}, pkg: v.typesPkg(ic.Pkg), frame: env.frame, mode: 1}
+		ienv.vars[ic.Params[0]] = Val{v.box(st, args[0], fn.Params[0].Type()), types.NewInterfaceType(nil, nil)}
+		for i := 1; i < len(ic.Params) && i < len(args); i++ {
+			ienv.vars[ic.Params[i]] = Val{args[i], fn.Params[i].Type()}
+		}
+		for i, r := range rs {
+			ienv.vars[fmt.Sprintf("result%d", i)] = Val{r, sig.Results().At(i).Type()}
+			if i == 0 {
+				ienv.vars["result"] = Val{r, sig.Results().At(i).Type()}
+			}
+		}
+		for _, gu := range ic.GhostUpd {
+			v.ghostUpdate(st, ienv, gu, what)
+		}
+		for _, en := range ic.Ensures {
+			g, err := ienv.evalBool(en.Expr)
+			if err != nil {
+				v.errorf("ensures %s of %s (via %s): %v", en.Label, what, impl, err)
+				continue
+			}
+			st.assume(g)
+		}
+	}
 	return rs
 }
 
